@@ -49,6 +49,8 @@ type ModeResult struct {
 }
 
 var errClasses = []struct{ re, cls string }{
+	{`error in view`, "refused-view"},
+	{`error in trigger`, "refused-trigger"},
 	{`Cannot add a NOT NULL column`, "refused-add-notnull"},
 	{`NOT NULL constraint failed`, "refused-notnull"},
 	{`UNIQUE constraint failed`, "refused-unique"},
@@ -111,7 +113,7 @@ func runMode(ctx context.Context, c *Case, m Mode, dir string) (res ModeResult) 
 		return
 	}
 	defer client.Close()
-	if _, err := populate(ctx, client.DB, c.Cur.ddl(), c.Inserts); err != nil {
+	if _, err := populate(ctx, client.DB, c.Cur.ddl(), c.Inserts, c.Cur.Extra); err != nil {
 		res.Skip = "populate: " + err.Error()
 		return
 	}
@@ -221,6 +223,9 @@ func caseText(c *Case) string {
 	for _, s := range c.Inserts {
 		b.WriteString(s + ";\n")
 	}
+	for _, s := range c.Cur.Extra {
+		b.WriteString(s + ";\n")
+	}
 	b.WriteString("-- desired\n")
 	for _, s := range c.Des.ddl() {
 		b.WriteString(s + ";\n")
@@ -323,7 +328,7 @@ func report(w *out.W, cr caseResult, dbg, viol *os.File) {
 		}
 		if r.ErrClass != "" {
 			w.Count(r.ErrClass)
-			if r.ErrClass == "refused-other" || r.ErrClass == "refused-syntax" || r.ErrClass == "refused-schema-error" || r.ErrClass == "refused-no-such-column" {
+			if r.ErrClass == "refused-no-such-table" || r.ErrClass == "refused-other" || r.ErrClass == "refused-syntax" || r.ErrClass == "refused-schema-error" || r.ErrClass == "refused-no-such-column" {
 				fmt.Fprintf(dbg, "%s %s edits=%v: %s\n", id, r.ErrClass, c.Edits, r.ErrText)
 			}
 		} else {
